@@ -3,6 +3,18 @@
 import json, os
 
 CLAIMS = {
+ "C07": {
+  "text": "Decides the structural clauses of gas accounting on every path of Vm::exec: the op-executing call is dominated by success of checked_add(total, op_gas_cost(op)) filtered by `sum <= gas_limit.total` for the very op it executes (so an op that would exceed the limit has no effect); every definition of the running total is 0 or the payload of such a checked, limit-filtered sum, including the gas joined from compute children; no unchecked u64 arithmetic exists in essential-vm / essential-check; the checker sums with saturating_add. Partial claim: the value statement `reported gas = sum of executed costs` is decided only as this structure.",
+  "note": "Assumes OpGasCost is a pure function. Observation K1 (children each receive the full limit) is documented, not claimed as a violation. Termination follows informally from R1 with positive costs.",
+  "technique": "static analysis: MIR dominance (check-before-use), def-use enumeration of the gas accumulator, operator/type scan for unchecked u64 arithmetic",
+  "design_ref": "3/C07",
+ },
+ "C16": {
+  "text": "Decides exactly the accept/reject boundary of every validator limit: each of the eight limit constants is compared once, evaluates to the documented number, is compared with the documented quantity, rejects exactly when quantity > LIMIT (normalised relation, so >= for > is caught), raises the documented error and is unconditional; validators are guarded by success of their sub-validators on the right arguments over whole collections; the per-solution duplicate-key test and the declared-vs-computed duplicate test are present and probe the right set. A boundary is a single comparison per limit, so its exact form for all inputs is readable from MIR.",
+  "note": "Not decided: std's len(), the sum in state_mutations_len (C06), the signature check itself (C19).",
+  "technique": "static analysis: normalised path-condition atoms over MIR switch edges compared with a limit table; dominance for call plumbing",
+  "design_ref": "3/C16",
+ },
  "C05": {
   "text": "Decides, for every program and operand: (a) no panic-capable construct (overflow/bounds/division Assert, panicking std call, panic!/unreachable!) is reachable from Vm::{exec,eval,..}/step_op* unless it is discharged by a structural rule or by a reviewed table line whose recorded dominating guards are re-verified on each run; an Assert(Overflow) site covers both build modes; (b) every function that can mutate the inner vector of Stack/Memory/Repeat or the parent-memory stack is enumerated and growth is only reachable under the right comparison with the right limit constant (4096/10240/4096/1). This is an exhaustive enumeration over all paths of the type-checked program, which no finite test set gives. It is a review gate: a new unguarded panic-capable site, a removed/weakened guard or a new writer is reported.",
   "note": "Trusted: std callees outside the panic table are total (listed in evidence); third-party crates; table reasons that rest on caller-side invariants (each marked in tables/panic_sites.json). Not decided: which error is returned; termination.",
